@@ -404,16 +404,18 @@ theorem processRespList_inv (rs : List (RespMsg F)) : ∀ (i : Inst F K), InstIn
     split
     · exact ih i h
     · rename_i hne
-      obtain ⟨h1, hp1⟩ := dkgProcessResponse_inv i r h hne
-      generalize dkgProcessResponse i r = q at h1 hp1
-      obtain ⟨i1, ok⟩ := q
-      simp only at h1 hp1
-      cases ok with
-      | false => exact ⟨h1, hp1⟩
-      | true =>
-        simp only
-        obtain ⟨h2, hp2⟩ := ih i1 h1
-        exact ⟨h2, hp2.trans hp1⟩
+      split
+      · exact ⟨h, rfl⟩
+      · obtain ⟨h1, hp1⟩ := dkgProcessResponse_inv i r h hne
+        generalize dkgProcessResponse i r = q at h1 hp1
+        obtain ⟨i1, ok⟩ := q
+        simp only at h1 hp1
+        cases ok with
+        | false => exact ⟨h1, hp1⟩
+        | true =>
+          simp only
+          obtain ⟨h2, hp2⟩ := ih i1 h1
+          exact ⟨h2, hp2.trans hp1⟩
 
 theorem processResponses_inv (ord : List Nat) : ∀ (i : Inst F K), InstInv i → InstInv (processResponses i ord).1 := by
   induction ord with
